@@ -241,6 +241,22 @@ func runC07(c *Ctx) {
 		{"nul", "a\x00b A 10.0.0.1\n"},
 		{"dangling-escape", "a\\"},
 	}
+	// fixed-shape tokens at every length around their shape (the parsers index into the token)
+	for n := 0; n <= 26; n++ {
+		cut := func(t string) string {
+			if n < len(t) {
+				return t[:n]
+			}
+			return t + strings.Repeat("f", n-len(t))
+		}
+		cases = append(cases, tc{fmt.Sprintf("nid-token-%d", n), "a. 60 IN NID 1 " + cut("0014:4fff:ff20:ee64") + "\n"},
+			tc{fmt.Sprintf("l64-token-%d", n), "a. 60 IN L64 1 " + cut("2001:0db8:1140:1000") + "\n"},
+			tc{fmt.Sprintf("eui48-token-%d", n), "a. 60 IN EUI48 " + cut("00-00-5e-00-53-2a") + "\n"},
+			tc{fmt.Sprintf("eui64-token-%d", n), "a. 60 IN EUI64 " + cut("00-00-5e-ef-10-00-00-2a") + "\n"},
+			tc{fmt.Sprintf("loc-token-%d", n), "a. 60 IN LOC " + cut("52 22 23.000 N 4 53 32.000 E") + "\n"},
+			tc{fmt.Sprintf("nsec3-token-%d", n), "a. 60 IN NSEC3 1 0 0 - " + cut("2t7b4g4vsa5smi47k61mv5bv1a22bojr") + " A\n"},
+			tc{fmt.Sprintf("sshfp-token-%d", n), "a. 60 IN SSHFP 1 1 " + cut("123456789abcdef67890123456789abcdef67890") + "\n"})
+	}
 	hostileDefaultTTL = true
 	cases = append(cases, tc{"nsec-close", "a. NSEC b. A ) \nb. A 10.0.0.1\n"}, tc{"csync-open", "a. CSYNC 1 1 ( A "}, tc{"loc-open", "a. LOC 1 N 1 E 1m ( 1m "},
 		tc{"nsec3-open", "a. NSEC3 1 0 0 - abcdefgh ( A "})
